@@ -10,8 +10,12 @@ C23 driver.
           `cO:<rev>` (commit in the other branch O), `sO` (O pulls the master with overwrite),
           `qH:<stop|~>:<overwrite T|F>:<local T|F>` / `qL:…` / `qM:…` (pull from O with a stop revision),
           `shH` / `shL` (push the checkout's branch into the third branch P)
+          `cG:<rev>` `lG:<rev>` `uG` `pG` `bG` `xG` `qG:…` `shG`: the same operations in the SECOND heavyweight checkout,
+          `bM` / `xM` (bind the master to the third branch P / unbind it)
+  each step's field list is followed by `|<local2 revno>:<local2 tip>|<bound2 T|F>|<H2 parents>|<master bound T|F>`
   parents = `-` | revs joined by `+`
-  log   = `-` | entries `m:<rev>` / `h:<rev>` joined by `+` : the tip writes of this step, oldest first
+  log   = `-` | entries `m:<rev>` / `h:<rev>` / `g:<rev>` joined by `+` : the tip writes of this step, oldest first
+  A sequence that uses a revision id twice is answered with `bad-op` (ids are fresh in every history).
 -/
 namespace BreezyVerif.C23
 
@@ -26,6 +30,13 @@ def parseOp (s : String) : Option Op :=
   | ["sO"] => some .syncO
   | ["shH"] => some (.push .H)
   | ["shL"] => some (.push .L)
+  | ["uG"] => some (.onH2 (.update .H))
+  | ["pG"] => some (.onH2 .pull)
+  | ["bG"] => some (.onH2 .bind)
+  | ["xG"] => some (.onH2 .unbind)
+  | ["shG"] => some (.onH2 (.push .H))
+  | ["bM"] => some .bindM
+  | ["xM"] => some .unbindM
   | ["cO", r] => if r.isEmpty || r == null then none else some (.commitO r)
   | [k, r, ow, lo] =>
     match parseBool ow, parseBool lo with
@@ -35,6 +46,7 @@ def parseOp (s : String) : Option Op :=
       | "qH", some st => some (.pullOther .H st ow lo)
       | "qL", some st => some (.pullOther .L st ow lo)
       | "qM", some st => some (.pullOther .M st ow lo)
+      | "qG", some st => some (.onH2 (.pullOther .H st ow lo))
       | _, _ => none
     | _, _ => none
   | [k, r] =>
@@ -46,11 +58,30 @@ def parseOp (s : String) : Option Op :=
     | "lM" => some (.commit .M r true)
     | "lH" => some (.commit .H r true)
     | "lL" => some (.commit .L r true)
+    | "cG" => some (.onH2 (.commit .H r false))
+    | "lG" => some (.onH2 (.commit .H r true))
     | _ => none
   | _ => none
 
+/-- the revision id an operation creates -/
+def newRev : Op → Option Rev
+  | .commit _ r _ => some r
+  | .commitO r => some r
+  | .onH2 op => newRev op
+  | _ => none
+
+def freshRevs (used : List Rev) : List Op → Bool
+  | [] => true
+  | op :: rest =>
+    match newRev op with
+    | some r => !used.contains r && freshRevs (r :: used) rest
+    | none => freshRevs used rest
+
 def parseOps (s : String) : Option (List Op) :=
-  if s == "-" then some [] else (s.splitOn ",").mapM parseOp
+  if s == "-" then some [] else
+  match (s.splitOn ",").mapM parseOp with
+  | some ops => if freshRevs [] ops then some ops else none
+  | none => none
 
 def showOut : Out → String
   | .ok => "ok"
@@ -58,17 +89,21 @@ def showOut : Out → String
   | .outOfDateTree => "E:OutOfDateTree"
   | .localRequiresBound => "E:LocalRequiresBoundBranch"
   | .diverged => "E:DivergedBranches"
+  | .doubleBound => "E:CommitToDoubleBoundBranch"
+  | .unmodelled => "unmodelled"
 
 def showRevs (l : List Rev) : String := if l.isEmpty then "-" else "+".intercalate l
 
-def showEntry (e : Entry) : String := (if e.br == .master then "m:" else "h:") ++ e.rev
+def showEntry (e : Entry) : String :=
+  (match e.br with | .master => "m:" | .loc => "h:" | .loc2 => "g:") ++ e.rev
 
 def showStep (old : St) (s : St) (o : Out) : String :=
   let newEntries := (s.log.take (s.log.length - old.log.length)).reverse
   "|".intercalate [showOut o, s!"{revno s.graph s.master}:{s.master}", s!"{revno s.graph s.loc}:{s.loc}",
     showBool s.bound, showRevs s.tM.parents, showRevs s.tH.parents, showRevs s.tL.parents,
     (if newEntries.isEmpty then "-" else "+".intercalate (newEntries.map showEntry)),
-    s.other, showRevs s.tO.parents, s.third]
+    s.other, showRevs s.tO.parents, s.third,
+    s!"{revno s.graph s.loc2}:{s.loc2}", showBool s.bound2, showRevs s.tH2.parents, showBool s.masterBound]
 
 def runShow (s : St) : List Op → List String
   | [] => []
